@@ -2428,7 +2428,8 @@ impl SubRule {
                     pos.increment(word);
                     Ok(true)
                 } else { Ok(false) },
-                ParseElement::Syllable(stress, tone, var) => self.input_match_syll(captures, state_index, stress, tone, var, word, pos),
+                // NOTE: input_match_syll advances the state index itself, and so does our caller once the set has matched
+                ParseElement::Syllable(stress, tone, var) => { let mut si = *state_index; self.input_match_syll(captures, &mut si, stress, tone, var, word, pos) },
                 ParseElement::SyllBound => if pos.at_syll_start() {
                     captures.push(MatchElement::SyllBound(pos.syll_index, Some(i))); // FIXME: `i` is being unnecessarily reassigned
                     Ok(true)
